@@ -5,12 +5,12 @@
 # so several properties can be collected in parallel.
 p=$1; shift
 letters=${@:-a b}
-wt=/tmp/r5/$p
+wt=${R5_DIR:-/tmp/r5}/$p
 for l in $letters; do
   [ -f $wt/seed_out/$l.patch ] || continue
   feat=""
   grep -qiE "features? +async|--features async" $wt/seed_out/NOTES.md 2>/dev/null && grep -q "stretto::AsyncCache\|AsyncCache" $wt/seed_out/demo_$l.rs && feat="async"
   [ -n "$R5_FEAT" ] && feat=$R5_FEAT
   (cd $wt && git checkout -q -- src)
-  /verif/tools/verify_seed.sh $wt $l.patch demo_$l seed5-$p-$l $feat | tail -12
+  /verif/tools/verify_seed.sh $wt $l.patch demo_$l ${R5_TAG:-seed5}-$p-$l $feat | tail -12
 done
